@@ -428,6 +428,36 @@ fn first_diff(a: &str, b: &str) -> String {
     format!("first difference at char {i}: expected …{ea}… found …{eb}…")
 }
 
+fn key128(s: &str) -> (u64, u64) {
+    use std::hash::{Hash, Hasher};
+    let mut h1 = std::collections::hash_map::DefaultHasher::new();
+    s.hash(&mut h1);
+    let mut h2 = std::collections::hash_map::DefaultHasher::new();
+    0xC08u32.hash(&mut h2); s.len().hash(&mut h2); s.hash(&mut h2);
+    (h1.finish(), h2.finish())
+}
+
+/// Pairs of texts that denote different scripts: the canonical form must tell them apart (and must identify
+/// the spellings that denote the same script).
+fn oracle_selftest() -> Vec<String> {
+    let mut errs = vec![];
+    let differ = [
+        ("I0 = (a + b) * c;", "I0 = a + (b * c);"), ("I0 = (a - b) - c;", "I0 = a - (b - c);"), ("f(0.1);", "f(0.10000001);"), ("f(0.0);", "f(-0.0);"),
+        ("f(\"\\n\");", "f(\"n\");"), ("f(a::b);", "f(a:b:);"), ("f(a:b);", "f(a ? b : b);"), ("I0 = a ? b : (c ? d : e);", "I0 = (a ? b : c) ? d : e;"),
+        ("f(1);", "f(1, 1);"), ("I0 = -x;", "I0 = x;"), ("I0 = !(!x);", "I0 = x;"), ("5:", "+5:"), ("{\"E\"}: f();", "{\"N\"}: f();"), ("f(2147483647);", "f(2147483648);"),
+        ("goto l @ 5;", "goto l @ -5;"), ("I0 = $x;", "I0 = %x;"), ("I0 += 1;", "I0 -= 1;"), ("if (a) { } else { }", "if (a) { }"), ("f(@mask=1);", "f(@arg0=1);"),
+    ];
+    let same = [("I0 = -1;", "I0 = 0xffffffff;"), ("I0 = -(-1);", "I0 = 1;"), ("I0 = (a + b);", "I0 = a + b;"), ("f(0x10);", "f(16);"), ("f(1.f);", "f(1.0);"), ("F0 = INF;", "F0 = 999999999999999999999999999999999999999999.0;")];
+    let canon = |body: &str| -> Option<String> { parse_file(&format!("script s {{ {body} }}")).ok().map(|a| canon_file(&a, true).0) };
+    for (a, b) in differ {
+        match (canon(a), canon(b)) { (Some(x), Some(y)) => if x == y { errs.push(format!("canonical form does not distinguish `{a}` from `{b}`")); }, _ => errs.push(format!("self-test text rejected: `{a}` / `{b}`")) }
+    }
+    for (a, b) in same {
+        match (canon(a), canon(b)) { (Some(x), Some(y)) => if x != y { errs.push(format!("canonical form distinguishes `{a}` from `{b}`")); }, _ => errs.push(format!("self-test text rejected: `{a}` / `{b}`")) }
+    }
+    errs
+}
+
 fn has_nondecimal(text: &str) -> bool {
     let t = outside_strings(text);
     t.contains("0x") || t.contains("0X") || t.contains("0b") || t.contains("0B")
@@ -460,6 +490,10 @@ pub fn run(tier: &str) -> Report {
     let mut timings = serde_json::Map::new();
     let mut capped = false;
 
+    let st = oracle_selftest();
+    rep.extra.insert("oracle_selftest".into(), json!(if st.is_empty() { "25 pairs: canonical form separates different scripts and identifies equal ones".to_string() } else { st.join("; ") }));
+    for e in st { rep.machinery_errors.push(format!("oracle self-test: {e}")); }
+
     // ---------------- (P) parser-produced ASTs
     let t0 = std::time::Instant::now();
     let (cases, edfs_note, edfs_capped) = gen_p(thorough);
@@ -473,19 +507,19 @@ pub fn run(tier: &str) -> Report {
     let t1 = std::time::Instant::now();
     let parsed = par_map(&cases, Some(deadline), |_, c| {
         match parse_file(&c.text) {
-            Ok(a) => { let (k, _) = canon_file(&a, false); Ok(k) },
+            Ok(a) => { let (k, _) = canon_file(&a, false); Ok(key128(&k)) },
             Err(ParseErr::Rejected(d)) => Err(format!("rejected: {}", first_error_line(&d))),
             Err(ParseErr::Panicked(p)) => Err(format!("panicked: {}", p.signature())),
         }
     });
     timings.insert("p_parse_s".into(), json!(t1.elapsed().as_secs_f64()));
-    let mut distinct: BTreeMap<String, usize> = BTreeMap::new();   // key -> index of the shortest text
+    let mut distinct: BTreeMap<(u64, u64), usize> = BTreeMap::new();   // 128-bit hash of the faithful canonical form -> index of the shortest text
     let mut rejected_samples: BTreeMap<String, Vec<String>> = BTreeMap::new();
     for (i, r) in parsed.iter().enumerate() {
         match r {
             None => { capped = true; },
             Some(Ok(k)) => {
-                let e = distinct.entry(k.clone()).or_insert(i);
+                let e = distinct.entry(*k).or_insert(i);
                 if cases[i].text.len() < cases[*e].text.len() { *e = i; }
             },
             Some(Err(why)) => {
